@@ -13,7 +13,7 @@
    section on m), so the steps it took are
    exactly a run of the section ALONE from the rolled-back state ([solos]). No fuel / termination assumption is
    needed (rolling back instead of running forward), loops and choices inside sections are allowed. *)
-From Relay Require Import Base.Prelude Model.LockIR Model.Reduction.
+From Relay Require Import Base.Prelude Model.LockIR Model.Reduction Proofs.LockIR_proofs.
 
 Section Proofs.
   Context {L F Ob Lo : Type}.
@@ -549,6 +549,199 @@ Section RelayReduction.
 End RelayReduction.
 
 (* ------------------------------------------------------------------------------------------ *)
+(* MOVERS, for ANY well-locked pool (nested sections included): a step that is neither an acquisition nor a release
+   commutes with the next step of any other thread - the both-mover half of Lipton's reduction *)
+Section Movers.
+  Context {L F Ob Lo : Type}.
+  Variable leqb : L -> L -> bool.
+  Hypothesis leqb_spec : forall a b, leqb a b = true <-> a = b.
+  Variable guard : F -> L.
+  Variable rd : F -> Lo -> Ob -> Lo.
+  Variable wr : F -> Lo -> Ob -> Lo * Ob.
+
+  Notation vthread := (@vthread L F Lo).
+  Notation cfg := (@cfg L F Ob Lo).
+  Notation held := (held leqb).
+  Notation oset := (@oset L Ob leqb).
+  Notation vtstep := (vtstep leqb guard rd wr).
+  Notation vstep := (vstep leqb guard rd wr).
+
+  (* the lock discipline, as far as the movers need it: accesses happen under the guard lock (writes exclusively),
+     and an exclusive holder excludes every other holder *)
+  Record wl (c : cfg) : Prop := {
+    wl_rd : forall i ls lo f k, nth_error (thrs c) i = Some (ls, lo, Rd f :: k) -> held (guard f) ls <> None;
+    wl_wr : forall i ls lo f k, nth_error (thrs c) i = Some (ls, lo, Wr f :: k) -> held (guard f) ls = Some Ex;
+    wl_ex : forall i j li loi ki lj loj kj m, i <> j ->
+      nth_error (thrs c) i = Some (li, loi, ki) -> nth_error (thrs c) j = Some (lj, loj, kj) ->
+      held m li = Some Ex -> held m lj = None
+  }.
+
+  Lemma vupd_comm (ts : list vthread) i j a b : i <> j -> vupd (vupd ts i a) j b = vupd (vupd ts j b) i a.
+  Proof.
+    revert i j; induction ts as [|x ts IH]; intros [|i] [|j] H; cbn; try reflexivity; try congruence.
+    f_equal. apply IH. lia.
+  Qed.
+
+  Lemma free_erase m (ts : list vthread) :
+    free leqb m (erase ts) <-> (forall j ls lo k, nth_error ts j = Some (ls, lo, k) -> held m ls = None).
+  Proof.
+    unfold free, erase. split.
+    - intros H j ls lo k Hj. apply (H j (erase_t (ls, lo, k))). rewrite nth_error_map, Hj. reflexivity.
+    - intros H j t Hj. rewrite nth_error_map in Hj. destruct (nth_error ts j) as [[[ls lo] k]|] eqn:E; inversion Hj; subst.
+      cbn. eapply H; eauto.
+  Qed.
+
+  Lemma noex_erase m (ts : list vthread) :
+    no_ex leqb m (erase ts) <-> (forall j ls lo k, nth_error ts j = Some (ls, lo, k) -> held m ls <> Some Ex).
+  Proof.
+    unfold no_ex, erase. split.
+    - intros H j ls lo k Hj. apply (H j (erase_t (ls, lo, k))). rewrite nth_error_map, Hj. reflexivity.
+    - intros H j t Hj. rewrite nth_error_map in Hj. destruct (nth_error ts j) as [[[ls lo] k]|] eqn:E; inversion Hj; subst.
+      cbn. eapply H; eauto.
+  Qed.
+  Lemma free_vupd_same (ts : list vthread) i ls lo k lo' k' m :
+    nth_error ts i = Some (ls, lo, k) ->
+    (free leqb m (erase (vupd ts i (ls, lo', k'))) <-> free leqb m (erase ts)).
+  Proof.
+    intro Hi. rewrite !free_erase. split; intros H j ls1 lo1 k1 Hj; destruct (Nat.eq_dec i j) as [<-|Hne].
+    - rewrite Hi in Hj. inversion Hj; subst. apply (H i ls1 lo' k'). eapply nth_vupd_same; eauto.
+    - apply (H j ls1 lo1 k1). rewrite nth_vupd_other by assumption. exact Hj.
+    - rewrite (nth_vupd_same _ _ _ _ Hi) in Hj. inversion Hj; subst. eapply H; eauto.
+    - rewrite nth_vupd_other in Hj by assumption. eapply H; eauto.
+  Qed.
+
+  Lemma noex_vupd_same (ts : list vthread) i ls lo k lo' k' m :
+    nth_error ts i = Some (ls, lo, k) ->
+    (no_ex leqb m (erase (vupd ts i (ls, lo', k'))) <-> no_ex leqb m (erase ts)).
+  Proof.
+    intro Hi. rewrite !noex_erase. split; intros H j ls1 lo1 k1 Hj; destruct (Nat.eq_dec i j) as [<-|Hne].
+    - rewrite Hi in Hj. inversion Hj; subst. apply (H i ls1 lo' k'). eapply nth_vupd_same; eauto.
+    - apply (H j ls1 lo1 k1). rewrite nth_vupd_other by assumption. exact Hj.
+    - rewrite (nth_vupd_same _ _ _ _ Hi) in Hj. inversion Hj; subst. eapply H; eauto.
+    - rewrite nth_vupd_other in Hj by assumption. eapply H; eauto.
+  Qed.
+
+  Definition same (a b : cfg) : Prop := thrs a = thrs b /\ forall m, objs a m = objs b m.
+
+  (* a step that keeps the thread's lockset: control, blocking, an access *)
+  Definition quiet (c : cfg) (i : nat) : Prop :=
+    exists ls lo s k, nth_error (thrs c) i = Some (ls, lo, s :: k) /\
+      match s with Acq _ _ | Rel _ => False | _ => True end.
+
+  (* two accesses of different threads to the same object are never both enabled unless both are reads *)
+  Lemma guards_differ c i j li loi ki lj loj kj f f' :
+    wl c -> i <> j ->
+    nth_error (thrs c) i = Some (li, loi, Wr f :: ki) ->
+    nth_error (thrs c) j = Some (lj, loj, kj) -> held (guard f') lj <> None -> guard f' <> guard f.
+  Proof.
+    intros [_ Hw Hx] Hne Hi Hj Hh E. apply Hh. rewrite E. eapply (Hx i j); eauto.
+  Qed.
+
+  Lemma oset_other (ob : L -> Ob) g v m : m <> g -> oset ob g v m = ob m.
+  Proof.
+    intro H. unfold Reduction.oset. destruct (leqb m g) eqn:E; [apply leqb_spec in E; contradiction|reflexivity].
+  Qed.
+
+  (* RIGHT MOVER (and, read backwards, LEFT MOVER): a step that is neither Acq nor Rel commutes with the next step of
+     any other thread: same final configuration *)
+  Theorem quiet_step_commutes c i c1 j c2 :
+    wl c -> i <> j -> quiet c i -> vstep c i c1 -> vstep c1 j c2 ->
+    exists c1' c2', vstep c j c1' /\ vstep c1' i c2' /\ same c2' c2.
+  Proof.
+    intros Hwl Hne Hq H1 H2.
+    destruct H1 as [c i ti o1 ti' Hi Hti].
+    inversion H2 as [c1x jx tj o2 tj' Hj Htj]; subst c1x jx c2. cbn [thrs objs] in Hj, Htj.
+    rewrite nth_vupd_other in Hj by assumption.
+    destruct Hq as (ls0 & lo0 & s0 & k0 & Hq & Hs0). rewrite Hi in Hq.
+    (* common endings: j's step first (tactic tj), then i's (tactic ti) *)
+    Ltac comm Hi Hj tj ti :=
+      do 2 eexists; split; [eapply VStep; [exact Hj|tj]|
+        split; [eapply VStep; [cbn [thrs objs]; rewrite nth_vupd_other by auto; exact Hi|ti]|
+          split; [cbn [thrs objs]; apply vupd_comm; auto|intro; reflexivity]]].
+    destruct Hti as [ls lo k lo' k' Hl|ls lo m k Hf|ls lo m k Hn Hh|ls lo m k|ls lo f k|ls lo f k];
+      try (inversion Hq; subst; contradiction).
+    - (* i: a step touching no object *)
+      inversion Htj as [ls2 lo2 k2 lo2' k2' Hl2|ls2 lo2 m2 k2 Hf2|ls2 lo2 m2 k2 Hn2 Hh2|ls2 lo2 m2 k2|ls2 lo2 f2 k2|ls2 lo2 f2 k2];
+        subst tj tj'; try subst o2.
+      + comm Hi Hj ltac:(apply VLocal; exact Hl2) ltac:(apply VLocal; exact Hl).
+      + comm Hi Hj ltac:(apply VAcqEx; exact (proj1 (free_vupd_same _ _ _ _ _ _ _ _ Hi) Hf2)) ltac:(apply VLocal; exact Hl).
+      + comm Hi Hj ltac:(apply VAcqSh; [exact (proj1 (noex_vupd_same _ _ _ _ _ _ _ _ Hi) Hn2)|exact Hh2]) ltac:(apply VLocal; exact Hl).
+      + comm Hi Hj ltac:(apply VRel) ltac:(apply VLocal; exact Hl).
+      + comm Hi Hj ltac:(apply VRd) ltac:(apply VLocal; exact Hl).
+      + comm Hi Hj ltac:(apply VWr) ltac:(apply VLocal; exact Hl).
+    - (* i: Rd f *)
+      inversion Htj as [ls2 lo2 k2 lo2' k2' Hl2|ls2 lo2 m2 k2 Hf2|ls2 lo2 m2 k2 Hn2 Hh2|ls2 lo2 m2 k2|ls2 lo2 f2 k2|ls2 lo2 f2 k2];
+        subst tj tj'; try subst o2.
+      + comm Hi Hj ltac:(apply VLocal; exact Hl2) ltac:(apply VRd).
+      + comm Hi Hj ltac:(apply VAcqEx; exact (proj1 (free_vupd_same _ _ _ _ _ _ _ _ Hi) Hf2)) ltac:(apply VRd).
+      + comm Hi Hj ltac:(apply VAcqSh; [exact (proj1 (noex_vupd_same _ _ _ _ _ _ _ _ Hi) Hn2)|exact Hh2]) ltac:(apply VRd).
+      + comm Hi Hj ltac:(apply VRel) ltac:(apply VRd).
+      + comm Hi Hj ltac:(apply VRd) ltac:(apply VRd).
+      + (* j writes: another object than the one i reads *)
+        assert (Hg : guard f <> guard f2).
+        { eapply (guards_differ c j i); eauto. eapply (wl_rd _ Hwl i); eauto. }
+        do 2 eexists. split; [eapply VStep; [exact Hj|apply VWr]|].
+        split; [eapply VStep; [cbn [thrs objs]; rewrite nth_vupd_other by auto; exact Hi|apply VRd]|].
+        split; [cbn [thrs objs]; rewrite (oset_other _ _ _ _ Hg); apply vupd_comm; auto|intro; reflexivity].
+    - (* i: Wr f *)
+      assert (Hother : forall f2 ls2 lo2 k2, nth_error (thrs c) j = Some (ls2, lo2, k2) -> held (guard f2) ls2 <> None -> guard f2 <> guard f).
+      { intros f2 ls2 lo2 k2 Hj2 Hh2. eapply (guards_differ c i j); eauto. }
+      inversion Htj as [ls2 lo2 k2 lo2' k2' Hl2|ls2 lo2 m2 k2 Hf2|ls2 lo2 m2 k2 Hn2 Hh2|ls2 lo2 m2 k2|ls2 lo2 f2 k2|ls2 lo2 f2 k2];
+        subst tj tj'; try subst o2.
+      + comm Hi Hj ltac:(apply VLocal; exact Hl2) ltac:(apply VWr).
+      + comm Hi Hj ltac:(apply VAcqEx; exact (proj1 (free_vupd_same _ _ _ _ _ _ _ _ Hi) Hf2)) ltac:(apply VWr).
+      + comm Hi Hj ltac:(apply VAcqSh; [exact (proj1 (noex_vupd_same _ _ _ _ _ _ _ _ Hi) Hn2)|exact Hh2]) ltac:(apply VWr).
+      + comm Hi Hj ltac:(apply VRel) ltac:(apply VWr).
+      + (* j reads another object *)
+        assert (Hg : guard f2 <> guard f) by (eapply Hother; eauto; eapply (wl_rd _ Hwl j); eauto).
+        do 2 eexists. split; [eapply VStep; [exact Hj|apply VRd]|].
+        split; [eapply VStep; [cbn [thrs objs]; rewrite nth_vupd_other by auto; exact Hi|apply VWr]|].
+        split; [cbn [thrs objs]; rewrite (oset_other _ _ _ _ Hg); apply vupd_comm; auto|intro; reflexivity].
+      + (* j writes another object *)
+        assert (Hg : guard f2 <> guard f).
+        { eapply Hother; eauto. rewrite (wl_wr _ Hwl j _ _ _ _ Hj). discriminate. }
+        assert (Hg' : guard f <> guard f2) by congruence.
+        do 2 eexists. split; [eapply VStep; [exact Hj|apply VWr]|].
+        split; [eapply VStep; [cbn [thrs objs]; rewrite nth_vupd_other by auto; exact Hi|apply VWr]|].
+        split.
+        * cbn [thrs objs]. rewrite (oset_other _ _ _ _ Hg), (oset_other _ _ _ _ Hg'). apply vupd_comm; auto.
+        * intro m. cbn [thrs objs]. rewrite (oset_other _ _ _ _ Hg), (oset_other _ _ _ _ Hg').
+          unfold Reduction.oset. destruct (leqb m (guard f)) eqn:E1; destruct (leqb m (guard f2)) eqn:E2; try reflexivity.
+          apply leqb_spec in E1. apply leqb_spec in E2. congruence.
+  Qed.
+
+  (* the discipline holds in every configuration reachable from well-locked code (any nesting): it is what the
+     invariant of Proofs/LockIR_proofs.v says about the erased pool *)
+  Lemma inv_wl rank nb ord (c : cfg) : inv leqb guard rank nb ord (erase (thrs c)) -> wl c.
+  Proof.
+    intros [Hok Hex]. constructor.
+    - intros i ls lo f k Hi.
+      assert (He : nth_error (erase (thrs c)) i = Some (ls, Rd f :: k)) by (unfold erase; rewrite nth_error_map, Hi; reflexivity).
+      destruct (at_access_held leqb guard rank nb ord (ls, Rd f :: k) f false (Hok _ _ He)) as [_ H]; [cbn; auto|exact H].
+    - intros i ls lo f k Hi.
+      assert (He : nth_error (erase (thrs c)) i = Some (ls, Wr f :: k)) by (unfold erase; rewrite nth_error_map, Hi; reflexivity).
+      destruct (at_access_held leqb guard rank nb ord (ls, Wr f :: k) f true (Hok _ _ He)) as [H _]; [cbn; auto|auto].
+    - intros i j li loi ki lj loj kj m Hne Hi Hj Hh.
+      apply (Hex i j (li, ki) (lj, kj) m Hne); auto; unfold erase; rewrite nth_error_map; [rewrite Hi|rewrite Hj]; reflexivity.
+  Qed.
+
+  Lemma vstep_inv rank nb ord c i c' :
+    inv leqb guard rank nb ord (erase (thrs c)) -> vstep c i c' -> inv leqb guard rank nb ord (erase (thrs c')).
+  Proof.
+    intros Hinv Hs. destruct (vstep_erases leqb guard rd wr (jump_chk leqb guard rank nb ord) c i c' Hs) as [e He].
+    eapply step_inv; eauto.
+  Qed.
+
+  Theorem wl_reachable rank nb ord c0 c :
+    initial leqb guard rank nb ord (erase (thrs c0)) -> vsteps leqb guard rd wr c0 c -> wl c.
+  Proof.
+    intros Hi Hs. apply (inv_wl rank nb ord).
+    assert (H0 : inv leqb guard rank nb ord (erase (thrs c0))) by (apply initial_inv; exact Hi).
+    clear Hi. induction Hs as [c|c i c1 c2 Hst _ IH]; [exact H0|]. apply IH. eapply vstep_inv; eauto.
+  Qed.
+End Movers.
+
+(* ------------------------------------------------------------------------------------------ *)
 (* non-vacuity: two threads add their local value to the same object and keep the old value; thread 1 takes a
    local step in the middle of thread 0's section and then has to wait for the lock *)
 Definition w_rd (_ : nat) (lo ob : N) : N := lo.
@@ -585,4 +778,27 @@ Proof.
     + intros [|[|i]] t Hi; cbn in Hi; inversion Hi; subst; try reflexivity. destruct i; discriminate.
     + vm_compute. reflexivity.
     + vm_compute. reflexivity.
+Qed.
+
+(* non-vacuity for the movers: thread 0 is inside a shared section on lock 1 NESTED in a shared section on lock 0 and
+   reads; thread 1 takes a control step next; the discipline holds in that configuration *)
+Definition mv_c : @cfg nat nat N N :=
+  mkcfg (fun _ => 4%N) [([(1, Sh); (0, Sh)], 0%N, [Rd 1; Rel 1; Rel 0]); ([], 9%N, [Skip])].
+
+Lemma movers_witness :
+  wl Nat.eqb (fun f => f) mv_c /\ quiet mv_c 0 /\
+  exists c1 c2, vstep Nat.eqb (fun f => f) w_rd w_wr mv_c 0 c1 /\ vstep Nat.eqb (fun f => f) w_rd w_wr c1 1 c2.
+Proof.
+  split; [|split].
+  - constructor.
+    + intros [|[|i]] ls lo f k Hi; cbn in Hi; inversion Hi; subst; [cbn; discriminate|destruct i; discriminate].
+    + intros [|[|i]] ls lo f k Hi; cbn in Hi; inversion Hi; subst. destruct i; discriminate.
+    + intros [|[|i]] j li loi ki lj loj kj m _ Hi _ Hh; cbn in Hi; inversion Hi; subst.
+      * cbn in Hh. destruct (Nat.eqb m 1); [discriminate|]. destruct (Nat.eqb m 0); discriminate.
+      * discriminate.
+      * destruct i; discriminate.
+  - exists [(1, Sh); (0, Sh)], 0%N, (Rd 1), [Rel 1; Rel 0]. split; [reflexivity|exact I].
+  - do 2 eexists. split.
+    + eapply (VStep _ _ _ _ mv_c 0); [reflexivity|apply VRd].
+    + eapply VStep; [reflexivity|apply VLocal; apply LSkip].
 Qed.
